@@ -157,6 +157,20 @@ def _valid_case(ctx: Ctx, doc, eps, mode: str, reqs, todo, stream="valid") -> bo
     if st != "ok":
         return False
     ctx.count("nets:" + str(min(len(n.edges), 3)) + ("+" if len(n.edges) > 3 else ""))
+    if eps is None:
+        # the tolerance a fresh process installs: implementation vs the value derived from the DOCUMENT (spec side), and
+        # vs the Lean model's `defaultEps` (driver op `eps`)
+        inst, want = nc.installed_eps(doc), nc.doc_default_eps(doc)
+        ctx.count("default-tolerance-checked")
+        if inst is not None:
+            bad = (want is None) != (inst[0] == float("inf"))
+            if not bad and want is not None:
+                bad = any(abs(g - w) > 1e-9 * abs(w) for g, w in zip(inst, want))
+            if bad:
+                ctx.spec_fail("default_tolerance", inp, {"installed": list(inst), "document-derived": want and list(want)}, size)
+            reqs.append(f"{mode} eps {nc.enc_tree(doc, mode)}")
+            impl_eps = "inf" if inst[0] == float("inf") else f"d{nc.sc(inst[0], mode)} d{nc.sc(inst[1], mode)}"
+            todo.append(("eps", inp, impl_eps, size, 1.0))
     f = spec_derived(doc, eps, mode)
     if f is not None:
         clause = f[0]
@@ -196,6 +210,9 @@ def _malformed_case(ctx: Ctx, base, eps, mode: str, cls: str, reqs, todo) -> Non
         ctx.spec_fail("operation-raised", inp, {"exception-class": n, "note": "the reader rejects with AssertionError only"}, size)
     if cls in nc.LISTED and st == "ok":
         ctx.spec_fail("reject:" + cls, inp, {"defect": cls, "loaded": impl_line[:500]}, size)
+    if cls in nc.MUST_LOAD and st != "ok":
+        ctx.spec_fail("accept:" + cls, inp, {"variation": cls, "verdict": "rejected",
+                                             "note": "overlap below the area tolerance in force (document-derived)"}, size)
 
 
 def compare(ctx: Ctx, todo, replies) -> None:
@@ -242,7 +259,7 @@ def run(ctx: Ctx) -> None:
         eps = nc.gen_eps(ctx.rng, mode)
         if valid_case(ctx, doc, eps, mode, reqs, todo):
             bases.append((doc, eps, mode))
-    classes = nc.LISTED * 3 + nc.OTHER
+    classes = nc.LISTED * 3 + nc.OTHER + ["hard-overlap"] * 3 + nc.MUST_LOAD * 4
     if bases:
         for j in range(nm):
             doc, eps, mode = bases[ctx.rng.randrange(len(bases))]
